@@ -141,14 +141,18 @@ class Kernel:
         self.at(self.now + int(d_us), fn, *args)
 
     # ------------------------------------------------------------- processes
-    def spawn(self, name, role, argv, addrs, env=None, san_env=None):
+    def spawn(self, name, role, argv, addrs, env=None, san_env=None, stdin_data=None):
         p = Proc(name, role)
         p.addrs = list(addrs)
         a, b = socket.socketpair(socket.AF_UNIX, socket.SOCK_STREAM)
         p.sock = a
         e = dict(san_env or os.environ)
         if env:
-            e.update(env)
+            for kk, vv in env.items():
+                if vv is None:
+                    e.pop(kk, None)      # (really unset, not empty)
+                else:
+                    e[kk] = vv
         e["SIMNET_FD"] = str(b.fileno())
         p.logdir = os.path.join(self.workdir, name) if self.workdir else None
         stderr = subprocess.DEVNULL
@@ -159,8 +163,17 @@ class Kernel:
             for k in ("ASAN_OPTIONS", "UBSAN_OPTIONS"):
                 if k in e and "log_path" not in e[k]:
                     e[k] += ":log_path=%s/%s" % (p.logdir, k[:-8].lower())
-        p.popen = subprocess.Popen(argv, env=e, pass_fds=(b.fileno(),), stdin=subprocess.DEVNULL,
+        stdin = subprocess.DEVNULL
+        if stdin_data is not None:
+            # what the program finds on its standard input (e.g. a password piped in), then end of file
+            rfd, wfd = os.pipe()
+            os.write(wfd, bytes(stdin_data)[:60000])
+            os.close(wfd)
+            stdin = rfd
+        p.popen = subprocess.Popen(argv, env=e, pass_fds=(b.fileno(),), stdin=stdin,
                                    stdout=subprocess.DEVNULL, stderr=stderr, close_fds=True)
+        if stdin_data is not None:
+            os.close(rfd)
         if stderr is not subprocess.DEVNULL:
             stderr.close()
         b.close()
